@@ -250,9 +250,9 @@ Fixpoint digs (base acc : Z) (prev_us : bool) (t : list Z) : option Z :=
 
 Definition skip_prefix16 (t : list Z) : list Z :=
   match t with
-  | 48 :: x :: r =>
-      if (x =? 120) || (x =? 88) then
-        match r with 95 :: r' => r' | _ => r end
+  | z :: x :: r =>
+      if (z =? 48) && ((x =? 120) || (x =? 88)) then
+        match r with u :: r' => if u =? 95 then r' else r | [] => r end
       else t
   | _ => t
   end.
@@ -398,6 +398,17 @@ Fixpoint conv (ch : list step) (t : list Z) : result :=
   | s :: rest => match run_step s t with Some r => r | None => conv rest t end
   end.
 
+(* the float oracle view: the text accepted by the float step, read by a given float_of_text
+   (CPython float(), not modelled here) *)
+Inductive resF (F : Type) := OkFloat (x : F) | Other (r : result).
+Arguments OkFloat {F} x.
+Arguments Other {F} r.
+Definition conv_f {F : Type} (float_of_text : list Z -> option F) (ch : list step) (t : list Z) : resF F :=
+  match conv ch t with
+  | Ok (VFloatText s) => match float_of_text s with Some x => OkFloat x | None => Other Err end
+  | r => Other r
+  end.
+
 (* ------------------------------------------------------------------ literal printers *)
 (* Python str(int): decimal, no leading zeros, '-' for negatives *)
 Fixpoint dg (fuel : nat) (n : Z) (acc : list Z) : list Z :=
@@ -407,6 +418,36 @@ Fixpoint dg (fuel : nat) (n : Z) (acc : list Z) : list Z :=
   end.
 Definition print_nat (n : Z) : list Z := dg (S (Z.to_nat (Z.log2 n))) n [].
 Definition print_Z (z : Z) : list Z := if z <? 0 then 45 :: print_nat (- z) else print_nat z.
+
+(* a point literal from coordinate TEXTS: <c1><l1><c2><l2>[<c3><l3>] *)
+Fixpoint render_t (cs : list (list Z)) (ls : list Z) : list Z :=
+  match cs, ls with
+  | c :: cs', l :: ls' => c ++ l :: render_t cs' ls'
+  | _, _ => []
+  end.
+
+(* a lat/lon literal: <deg><hemisphere letter><min>.<frac> *)
+Definition latlon_text (deg : list Z) (h : Z) (m1 m2 : list Z) : list Z := deg ++ h :: m1 ++ 46 :: m2.
+Definition ne_class : list Z := [78; 44; 69; 44; 110; 44; 101].
+Definition sw_class : list Z := [83; 44; 87; 44; 115; 44; 119].
+
+(* the shape of Python's repr of a finite float: [-]digits.digits | [-]digits[.digits]e(+|-)digits *)
+Definition exp_ok (r : list Z) : bool :=
+  match r with
+  | e :: s :: ds => (e =? 101) && ((s =? 43) || (s =? 45)) && nonempty ds && forallb is_digit ds
+  | _ => false
+  end.
+Definition float_shape (t : list Z) : bool :=
+  let r := match t with c :: r' => if c =? 45 then r' else t | [] => t end in
+  let (ip, r1) := span_digits r in
+  nonempty ip &&
+  match r1 with
+  | c :: r2 =>
+      if c =? 46 then
+        let (fp, r3) := span_digits r2 in nonempty fp && (is_nil r3 || exp_ok r3)
+      else exp_ok r1
+  | [] => false
+  end.
 
 (* a point literal with integer coordinates: <z1><l1><z2><l2>[<z3><l3>] *)
 Fixpoint render (zs : list Z) (ls : list Z) : list Z :=
